@@ -102,6 +102,37 @@ pub fn fuzz_line(s: &mut S, me: &str) -> (String, String) {
         let ms = strings[s.pick(strings.len())];
         return (format!("MODE {} {}", target, ms), format!("MODE/{}", ms.split(' ').next().unwrap_or("")));
     }
+    // half of the time start from the verb's well-formed parameter list (so that validation is
+    // passed and the handler's own logic is reached) and vary names and numbers position-wise
+    if s.chance(50) {
+        if let Some((_, _, wf)) = crate::checks::wire13::TABLE.iter().find(|t| t.0 == verb) {
+            let k = s.pick(wf.len() + 1);
+            let mut ps: Vec<String> = vec![];
+            for p in wf.iter().take(k) {
+                let v = if p.chars().all(|c| c.is_ascii_digit()) {
+                    ["0", "1", "2", "7", "99999", "18446744073709551615", "4294967296"][s.pick(7)].to_string()
+                } else if *p == "n1" {
+                    ["n1", "n0", "gone", "n4", "n4r", "f", "nobody", "n2,n3", "n1,n1"][s.pick(9)].to_string()
+                } else if *p == "#c0" {
+                    ["#c0", "#c1", "&pre", "#nonexistent", "#c0,#c1", "#c0,#c0"][s.pick(6)].to_string()
+                } else if s.chance(20) {
+                    param(s, me)
+                } else {
+                    p.to_string()
+                };
+                ps.push(v);
+            }
+            let mut l = verb.to_string();
+            for (i, p) in ps.iter().enumerate() {
+                l.push(' ');
+                if i + 1 == ps.len() && (p.contains(' ') || p.is_empty() || p.starts_with(':')) {
+                    l.push(':');
+                }
+                l += &if i + 1 == ps.len() { p.clone() } else { p.replace(' ', "_") };
+            }
+            return (l, format!("{}/{}/wf", verb, ps.len()));
+        }
+    }
     let mut shapes = String::new();
     for i in 0..arity {
         let p = param(s, me);
